@@ -101,6 +101,17 @@ func isoCorpus(e *ev.Env) {
 		{"unrouted-405-errorhandler-state-then-probe", isoCase{Cfg: isoCfg{NoMW: true, EHState: true, PassLocals: true}, History: []wreq{
 			{Kind: "unrouted-405", Raw: rawReq(reqSpec{Method: "POST", Target: "/getonly?name=h0&a=x", Body: []byte{}})}},
 			Probe: probeSpec{Route: 4, Class: ckNone, Variant: "R", Raw: rawReq(reqSpec{Target: "/probeplain?variant=R&a=notanumber"})}}},
+		{"routed-then-rejected-propfind-413", isoCase{Cfg: isoCfg{Mount: true}, History: []wreq{
+			{Kind: "admin", Raw: rawReq(reqSpec{Target: "/admin/reports/7", Host: "tenant-a.example"})}},
+			Probe: probeSpec{Route: -1, Class: ckNone, ViaEH: true, Variant: "eh-413",
+				Raw: rawReq(reqSpec{Method: "PROPFIND", Target: "/dav/files", Host: "tenant-b.example", Hdr: [][2]string{{"Content-Length", "5000"}}})}}},
+		{"matched-then-405-customctx", isoCase{Cfg: isoCfg{Custom: true}, History: []wreq{
+			{Kind: "routed", Raw: rawReq(reqSpec{Target: "/getonly"})}},
+			Probe: probeSpec{Route: -1, Class: ckNone, ViaEH: true, Variant: "eh-405",
+				Raw: rawReq(reqSpec{Method: "POST", Target: "/getonly", Body: []byte{}})}}},
+		{"malformed-then-handler-returns-errbadrequest", isoCase{History: []wreq{
+			{Kind: "malformed", Kills: true, Raw: []byte("GET /account HTTP/1.1\r\nHost: x\r\nCookie: session=secret\r\nContent-Length: abc\r\n\r\n")}},
+			Probe: probeSpec{Route: 4, Class: ckNone, Raw: rawReq(reqSpec{Target: "/probeplain?ret=bad-request"})}}},
 		{"server-error-path-then-probe", isoCase{History: []wreq{
 			{Kind: "locals", Cookie: ckValid, Raw: rawReq(reqSpec{Target: "/locals/h0", Cookie: one})},
 			{Kind: "malformed", Kills: true, Raw: []byte("GET\r\n\r\n")}},
